@@ -763,7 +763,9 @@ fn combine_sources(rng: &mut Rng, cfg: &mut GovCfg, mode: Mode, n: u64) {
                 if rng.chance(2, 3) && !cfg.fields.iter().any(|f| f == "proposition_id") {
                     cfg.fields.push("proposition_id".into());
                 }
-                cfg.max_results = None;
+                // every other one: the masked source also carries a result cap, the other none
+                // (the cap then applies to a read only through the elements it loads)
+                cfg.max_results = if (n / 4) % 2 == 0 { Some(1 + rng.below(2)) } else { None };
                 let kinds = if cfg.kinds.len() == 1 && rng.bool() { strs(&["concept", "proposition", "evidence"]) } else { strs(&["concept", "proposition"]) };
                 cfg.extras.push(Extra { kinds, ..same_ceiling });
             }
@@ -773,7 +775,7 @@ fn combine_sources(rng: &mut Rng, cfg: &mut GovCfg, mode: Mode, n: u64) {
                 let hide: &[&str] = [&["name"][..], &["key"], &["attributes", "facets"], &["name", "key"]][((n / 4) % 4) as usize];
                 cfg.kinds = if rng.bool() { strs(&["concept"]) } else { strs(&["concept", "proposition"]) };
                 cfg.fields = mask_without(rng, &CONCEPT_FIELDS, hide);
-                cfg.max_results = None;
+                cfg.max_results = if (n / 4) % 2 == 1 { Some(1 + rng.below(2)) } else { None };
                 let kinds = if cfg.kinds.len() == 1 { strs(&["assertion", "evidence", "proposition"]) } else { strs(&["assertion", "evidence"]) };
                 cfg.extras.push(Extra { kinds, ..same_ceiling });
             }
@@ -895,6 +897,9 @@ impl GovCfg {
             see(&x.kinds, x.ceiling);
         }
         top
+    }
+    fn any_result_cap(&self) -> bool {
+        self.max_results.is_some() || self.extras.iter().any(|x| x.max_results.is_some())
     }
     /// Whether p holds the permission at Space scope (where no scope narrows).
     fn holds(&self, action: &str) -> bool {
@@ -1669,6 +1674,20 @@ fn is_prefix(got: &[(String, f64)], full: &[(String, f64)]) -> bool {
     got.len() <= full.len() && got.iter().zip(full).all(|(g, w)| g.1 == w.1) && got.iter().all(|g| full.iter().any(|f| f.0 == g.0))
 }
 
+/// Whether one of two FIND answers is the other one cut short at a result cap: a strict prefix of
+/// its rows, with a cursor, where the longer one has none.
+fn capped_prefix(a1: &Value, a2: &Value) -> bool {
+    let rows = |v: &Value| v["results"][0]["result"].as_array().cloned();
+    let cursor = |v: &Value| v.get("next_cursor").is_some_and(|c| !c.is_null());
+    match (rows(a1), rows(a2)) {
+        (Some(x), Some(y)) => {
+            let (short, long, short_has, long_has) = if x.len() < y.len() { (x, y, cursor(a1), cursor(a2)) } else { (y, x, cursor(a2), cursor(a1)) };
+            short.len() < long.len() && short_has && !long_has && long[..short.len()] == short[..]
+        }
+        _ => false,
+    }
+}
+
 /// Classifies a difference between p's SEARCH answers on S1 and S2 (mode HiddenElements).
 /// `full` = p's answers to the same search with `LIMIT 100` on S1 and S2 (only asked when the
 /// command carries a LIMIT).
@@ -1981,6 +2000,9 @@ fn ni_case(case: u64, rng: &mut Rng, st: &mut Stats, thorough: bool) {
                     }
                     // hits that match only through a masked field, or whose score it moves
                     Mode::MaskedFields if is_search => "C19/ni/search_matches_or_scores_on_masked_fields".to_string(),
+                    // the same rows, but one answer stops at a result cap (and offers a cursor) where
+                    // the other does not: whether a source's max_results applied depended on masked members
+                    Mode::MaskedFields if cfg.any_result_cap() && capped_prefix(&a1, &a2) => "C19/ni/masked_fields/result_cap_applied_depends_on_masked_members".to_string(),
                     _ => format!("C19/ni/{}/{}", mode.tag(), q.family),
                 };
                 report(
@@ -3166,8 +3188,8 @@ fn main() {
         ("delegation_checks_against_the_immediate_delegator", f(5000)),
         ("delegation_row_count_checks", f(400)),
         ("delegation_row_count_checks_delegator_at_its_cap", f(10)),
-        ("delegation_view_checks", f(500)),
-        ("delegation_view_checks_delegator_is_masked", f(50)),
+        ("delegation_view_checks", f(100)),
+        ("delegation_view_checks_delegator_is_masked", f(10)),
         ("delegation_influence_checks", f(100)),
         ("delegation_influence_delegator_refused", f(80)),
         ("delegation_influence_delegator_allowed", f(10)),
